@@ -85,6 +85,37 @@ def structural_cases(ctx, n: int) -> list[dict]:
     return cases
 
 
+def discriminator_cases(ctx, n: int) -> list[dict]:
+    """Discriminated unions whose mapping gives SEVERAL discriminator values to one schema (`dog` and `canine` -> Dog), used as a
+    property, as array items and at top level of the decoded class; payloads use every mapped value."""
+    cases = []
+    for i in range(n):
+        r = rng(f"C03:discriminator:{i}")
+        prop = r.choice(["kind", "petType", "type"])
+        aliases = {"Cat": ["cat"] + r.sample(["feline", "CAT", "kitty"], r.randint(0, 2)), "Dog": ["dog"] + r.sample(["canine", "DOG", "puppy"], r.randint(1, 2))}
+        pairs = [(v, k) for k, vs in aliases.items() for v in vs]
+        r.shuffle(pairs)
+        mapping = {v: f"#/components/schemas/{k}" for v, k in pairs}
+        schemas = {
+            "Cat": {"type": "object", "required": [prop], "properties": {prop: {"type": "string"}, "lives": {"type": "integer"}}},
+            "Dog": {"type": "object", "required": [prop], "properties": {prop: {"type": "string"}, "tricks": {"type": "array", "items": {"type": "string"}}}},
+            "Animal": {r.choice(["oneOf", "anyOf"]): [{"$ref": "#/components/schemas/Cat"}, {"$ref": "#/components/schemas/Dog"}],
+                       "discriminator": {"propertyName": prop, "mapping": mapping}},
+            "Owner": {"type": "object", "required": ["name"], "properties": {"name": {"type": "string"}, "pet": {"$ref": "#/components/schemas/Animal"},
+                                                                                  "otherPets": {"type": "array", "items": {"$ref": "#/components/schemas/Animal"}}}}}
+        doc = {"openapi": "3.0.3", "info": {"title": "D", "version": "1"}, "paths": {"/o": {"get": {"operationId": "getOwner", "responses": {"200": {"description": "ok",
+               "content": {"application/json": {"schema": {"$ref": "#/components/schemas/Owner"}}}}}}}}, "components": {"schemas": schemas}}
+
+        def animal(v, k):
+            return {prop: v, "lives": r.randint(1, 9)} if k == "Cat" else {prop: v, "tricks": r.sample(["sit", "roll", "beg"], r.randint(0, 2))}
+        items = []
+        for j, (v, k) in enumerate(pairs):
+            inst = {"name": f"o{j}", "pet": animal(v, k), "otherPets": [animal(*pq) for pq in r.sample(pairs, r.randint(0, len(pairs)))]}
+            items.append({"id": f"Owner-{j}", "cls": "Owner", "schema": "Owner", "json": inst, "features": ["discriminated-union", "mapping-alias:" + v]})
+        cases.append({"id": f"discriminator-{i}", "stream": "discriminator", "doc": doc, "items": items})
+    return cases
+
+
 def build_cases(ctx, stream: str, n: int) -> list[dict]:
     NS = opsrig.impl_names()
     cases = []
@@ -178,7 +209,7 @@ def check(run: Run, ctx) -> None:
     run.cov["rule"] = (run.cov.get("rule") or "") + ("[e2e] seeded random schema sets -> generated models imported in a fresh interpreter -> 3 type-directed conforming instances per object "
                        "schema (nested objects, lists, maps, nullable, date-time/date/byte[/uuid/time], camelCase/kebab/keyword-like property names) -> structure_from_dict then "
                        "unstructure_to_dict with the package's own core; distinct by (document, instance); non-trivial when the instance is non-empty")
-    cases = structural_cases(ctx, ctx.budget(8, 40)) + build_cases(ctx, "mainstream", ctx.budget(24, 240)) + build_cases(ctx, "wide", ctx.budget(12, 120))
+    cases = structural_cases(ctx, ctx.budget(8, 40)) + discriminator_cases(ctx, ctx.budget(6, 40)) + build_cases(ctx, "mainstream", ctx.budget(24, 240)) + build_cases(ctx, "wide", ctx.budget(12, 120))
     results = e2e.run_cases("vf.props.C03:case_fn", cases)
     for case, res in zip(cases, results):
         evaluate(run, known, case, res)
